@@ -8,8 +8,8 @@ area = "config"
 driver = "drv_config"
 cxx = False
 fixed_lines = 1
-per_process = 1    # the global configuration tree is process-global: a fresh driver process per script
-rule = ("scripts = 'g begin', ops, 'g end', one driver process per script; stream 1 (exhaustive small scope): every "
+per_process = 25   # the global tree is process-global; 'g begin'/'g end' empty it, a fault costs its batch only
+rule = ("scripts = 'g begin', ops, 'g end' (both empty the process-global tree), 25 scripts per driver process; stream 1 (exhaustive small scope): every "
         "history of length <=3 (quick) / <=4 (thorough) of set/del over the 6 paths a, a.b, a.b.c, a.c, b, a..b "
         "(shared prefixes, prefix-of-another, empty element) on the global tree, each followed by a get of all 6 paths; "
         "stream 2: the same histories with mixed front ends (NULL config, sub-tree views a / a.b, private list through "
@@ -23,7 +23,9 @@ rule = ("scripts = 'g begin', ops, 'g end', one driver process per script; strea
         "(an element with k in 0..5 children on a level of m in 1..4 items, at every position, on the top level and below "
         "another element, is removed, optionally a sibling too, then a new name / the same name / a sibling / a new name with "
         "child is assigned on that level; all old and new paths queried before and after); mpt::path::add/next/del; random "
-        "histories over a 6-name pool with depth <=3, clear, and names/values across 255 bytes; stream 7: every path of <=4 (5) "
+        "histories over a 6-name pool with depth <=3, clear, and names/values across 255 bytes; stream 8: remove with an "
+        "empty and with a NULL path, assign and query with an empty path, on the global object and through views on a valued "
+        "inner element, a leaf, a partially existing and a missing base, alone, in pairs and mixed with set/del; stream 7: every path of <=4 (5) "
         "elements over {a,bb,ccc,empty} built with addchar/valid/add in both modes, advanced by 0..n-1 mpt_path_next calls "
         "on the same object (offset > 0), then del + add of another element + walk; string-backed paths (mpt_path_set of 1..4 "
         "elements with changing names) advanced by 0..n mpt_path_next calls and then extended by 1..3 elements through "
@@ -88,7 +90,7 @@ def _stream1(tier):
 def _stream2(tier, r):
     out = []
     fronts = ["-", "-", "0", "1", "r"]
-    n = 250 if tier == "quick" else 4000
+    n = 400 if tier == "quick" else 4000
     for k in range(n):
         lines = ["g begin", "g view 61 2e", "g view %s 2f" % hx("a/b")]
         for _ in range(r.choice([2, 3, 5, 8])):
@@ -162,7 +164,7 @@ def _stream3(tier):
 
 def _stream4(tier, r, scale):
     out = []
-    n = (100 if tier == "quick" else 2000) * scale
+    n = (150 if tier == "quick" else 2000) * scale
     lens = [0, 1, 1, 2, 2, 254, 255, 256, 300]
     for k in range(n):
         names = []
@@ -197,7 +199,7 @@ def _stream5(tier, r):
     out = []
     elems = [["a"], ["a", "b"], ["a", "cc", "d"], ["a", "b", "zz"], ["b"], ["a", "cc"], ["ccc", "a"]]
     fmt = lambda e: ",".join(hx(x) for x in e)
-    n = 100 if tier == "quick" else 1500
+    n = 150 if tier == "quick" else 1500
     for k in range(n):
         lines = ["g begin"]
         for _ in range(r.choice([2, 3, 5, 8])):
@@ -230,7 +232,7 @@ def _stream6(tier, r):
     targets = ["a", "a.b", "a.b.c", "a.c", "c", "c.d", "c.d.e", "a.b.c.d"]
     fronts = [("-", ""), ("r", ""), ("0", "a"), ("1", "a.b"), ("2", "q.r")]
     k = 0
-    for pre in (preludes[:3] if tier == "quick" else preludes):
+    for pre in preludes:
         for tr, base in fronts:
             for t in targets:
                 if tr not in ("-", "r") and t.startswith("a"):
@@ -249,7 +251,7 @@ def _stream6(tier, r):
                 k += 1
     # an element of 65535 bytes and more at every position of the path
     j = 0
-    for pre in (preludes[:2] if tier == "quick" else preludes[:3]):
+    for pre in preludes[:3]:
         for tr, base in fronts:
             for ppre, suf in (("", ""), ("c.", ""), ("c.d.", ""), ("a.", ""), ("a.b.", ".z"), ("c.", ".z"), ("", ".z.y")):
                 for n in ((65535, 65536) if tier == "quick" else (65535, 65536, 66000, 70000)):
@@ -266,7 +268,7 @@ def _stream6(tier, r):
                                 + checks + probe + ["g end"]))
                     j += 1
     # random mixes
-    for i in range(100 if tier == "quick" else 1500):
+    for i in range(150 if tier == "quick" else 1500):
         lines = ["g begin", "g view 61 2e", "g view %s 2e" % hx("a.b"), "g view %s 2e" % hx("q.r")]
         pool = ["a", "a.b", "a.b.c", "c", "c.d", "b", "q", "q.r", "q.r.s", "a.b.z"]
         for _ in range(r.choice([4, 8, 12])):
@@ -301,8 +303,6 @@ def _stream7(tier):
     for mode in ("s", "b"):
         for n in range(1, 5 if tier == "quick" else 6):
             for es in itertools.product(pool, repeat=n):
-                if es[0] == "":
-                    continue
                 for skip in range(0, n):
                     for e2 in ("dd", "", "a"):
                         if n >= 4 and (e2 != "dd" or tier == "quick" and "" in es):
@@ -333,13 +333,53 @@ def _stream7(tier):
     return out
 
 
+def _stream8(tier, r):
+    """the empty-path forms of the config interface (remove with an empty / NULL path, assign and query with an empty
+    path) on the global object and through views on a valued inner element, a leaf, a value-less element, a partially
+    existing and a missing base"""
+    out = []
+    preludes = [[], ["g set - %s 2e %s" % (hx("a.b.c"), hx("1")), "g set - %s 2e %s" % (hx("a.b"), hx("2")),
+                     "g set - %s 2e %s" % (hx("a.d"), hx("3")), "g set - %s 2e %s" % (hx("e"), hx("4"))],
+                ["g set - %s 2e %s" % (hx("a.b.c.d"), hx("1")), "g set - %s 2e %s" % (hx("a.x"), hx("2"))],
+                ["g set - %s 2e %s" % (hx("q"), hx("9"))]]
+    views = ["a", "a.b", "a.b.c", "q.r", "e"]
+    head = ["g begin"] + ["g view %s 2e" % hx(v) for v in views]
+    probes = ["g get - %s 2e" % hx(p) for p in ("a", "a.b", "a.b.c", "a.b.c.d", "a.d", "a.x", "e", "q", "q.r")] + \
+             ["g has - %s 2e" % hx(p) for p in ("a", "a.b", "a.b.c", "q", "q.r")]
+    ops = ["g delp - empty", "g delp - null"]
+    for i in range(len(views)):
+        ops += ["g delp %d empty" % i, "g delp %d null" % i, "g setp %d %s" % (i, hx("n%d" % i)), "g getp %d" % i]
+    ops += ["g setp - %s" % hx("g"), "g getp -"]
+    k = 0
+    for pre in preludes:
+        for a in ops:
+            out.append(("empty:%d" % k, head + pre + [a] + probes + ["g end"]))
+            k += 1
+        if tier != "quick" or pre is preludes[1]:
+            for a in ops:
+                for b in ops[2::3]:
+                    out.append(("empty:%d" % k, head + pre + [a, b, "g set 1 %s 2e %s" % (hx("z"), hx("5"))] + probes + ["g end"]))
+                    k += 1
+    for i in range(60 if tier == "quick" else 600):
+        lines = list(head)
+        for _ in range(r.choice([3, 6, 10])):
+            if r.random() < 0.5:
+                lines.append(r.choice(ops))
+            else:
+                tr = r.choice(["-", "0", "1", "2", "3"])
+                t = r.choice(["a", "b", "b.c", "c", "a.b", "x.y"])
+                lines.append(r.choice(["g set %s %s 2e %s" % (tr, hx(t), hx("v%d" % r.randrange(30))), "g del %s %s 2e" % (tr, hx(t))]))
+        out.append(("empty:rnd:%d" % i, lines + probes + ["g end"]))
+    return out
+
+
 def scripts(tier, seed, scale=1):
     r2 = gen.rng(id, tier, seed, "mixed")
     r4 = gen.rng(id, tier, seed, "random")
     r5 = gen.rng(id, tier, seed, "binary")
     r6 = gen.rng(id, tier, seed, "refused")
     return (_stream1(tier) + _stream2(tier, r2) + _stream3(tier) + _stream4(tier, r4, scale) + _stream5(tier, r5)
-            + _stream6(tier, r6) + _stream7(tier))
+            + _stream6(tier, r6) + _stream7(tier) + _stream8(tier, gen.rng(id, tier, seed, "emptypath")))
 
 
 def nontrivial(script, c_lines):
